@@ -213,6 +213,13 @@ Proof.
   f_equal. rewrite <- seq_shift. rewrite map_map. apply (IH (fun o => G o)).
 Qed.
 
+Lemma nth_default_seq : forall (l : list Z) (d : nat -> Z),
+  map (fun i => match nth_error l i with Some z => z | None => d i end) (seq 0 (length l)) = l.
+Proof.
+  induction l as [|a r IH]; intro d; simpl; [reflexivity|].
+  f_equal. rewrite <- seq_shift. rewrite map_map. apply (IH (fun i => d (S i))).
+Qed.
+
 Lemma nth_error_map' : forall {A B} (f : A -> B) l i, nth_error (map f l) i = option_map f (nth_error l i).
 Proof. intros. apply nth_error_map. Qed.
 
@@ -234,12 +241,14 @@ Qed.
 Lemma sins_front : forall (L : list (nat * (Z * @phase T))) a, incr (a :: L) ->
   sins (fst (conv a)) (snd (conv a)) (map conv L) = conv a :: map conv L.
 Proof.
-  intros L a H. destruct L as [|b r]; simpl; [destruct (conv a); reflexivity|].
-  destruct H as [Hlt _]. unfold key in Hlt.
-  destruct (conv b) as [kb vb] eqn:Eb. unfold conv in Eb. inversion Eb. subst.
-  simpl. destruct (Z.of_nat (S (fst a)) <? Z.of_nat (S (fst b))) eqn:E.
-  - reflexivity.
-  - apply Z.ltb_ge in E. lia.
+  intros L a H. destruct L as [|b r].
+  - cbn [map sins]. rewrite <- surjective_pairing. reflexivity.
+  - cbn [map]. destruct H as [Hlt _]. unfold key in Hlt.
+    remember (conv a) as ca eqn:Ea. destruct ca as [ka va].
+    assert (Hka : ka = Z.of_nat (S (fst a))) by (unfold conv in Ea; inversion Ea; reflexivity).
+    remember (conv b) as cb eqn:Eb. destruct cb as [kb vb].
+    assert (Hkb : kb = Z.of_nat (S (fst b))) by (unfold conv in Eb; inversion Eb; reflexivity).
+    cbn [sins fst snd]. destruct (ka <? kb) eqn:E; [reflexivity | apply Z.ltb_ge in E; lia].
 Qed.
 
 Lemma sins_rev : forall L, incr L ->
@@ -261,7 +270,7 @@ Lemma phase_list_of_maps : forall (L : list (nat * (Z * @phase T))),
   phase_list_of (fold_left raw_add L raw_empty) =
   Some (fold_left (fun d kv => sins (fst kv) (snd kv) d) (map conv L) []).
 Proof.
-  intros L Hpg. rewrite raw_add_all. simpl.
+  intros L Hpg. rewrite raw_add_all. unfold raw_empty. cbn [rw_ids rw_names rw_formulas rw_pgs rw_lats app].
   set (ids := map (fun x : nat * (Z * @phase T) => Z.of_nat (S (fst x))) L).
   set (names := map (fun x : nat * (Z * @phase T) => shown_name (fst x) (snd (snd x))) L).
   set (pgs := map (fun x : nat * (Z * @phase T) => shown_pg (snd (snd x))) L).
@@ -271,8 +280,7 @@ Proof.
   { unfold final_names. simpl. destruct (_ && _)%bool; reflexivity. }
   assert (Hfi : final_ids {| rw_ids := ids; rw_names := names; rw_formulas := names; rw_pgs := pgs; rw_lats := lats |} = ids).
   { unfold final_ids. simpl. unfold ids, names. destruct L as [|x r]; [reflexivity|].
-    simpl map. cbv iota. repeat rewrite map_length. simpl length.
-    rewrite Nat.ltb_irrefl. reflexivity. }
+    simpl map. cbv iota. cbn [length]. repeat rewrite map_length. rewrite Nat.ltb_irrefl. reflexivity. }
   rewrite Hfn, Hfi. simpl rw_pgs. simpl rw_lats.
   assert (Hlen : Nat.max (Nat.max (length names) (length pgs)) (Nat.max (length ids) (Nat.min (length names) (length lats))) = length L).
   { unfold names, pgs, ids, lats. repeat rewrite map_length. apply max_self. }
@@ -287,19 +295,20 @@ Proof.
       destruct (nth_error L i) as [x|] eqn:Ex.
       - simpl. rewrite (Hpg x) by (eapply nth_error_In; exact Ex). simpl. reflexivity.
       - apply nth_error_None in Ex. lia. }
-    rewrite E. clear. induction L as [|x r IH]; simpl; [reflexivity|]. rewrite IH. reflexivity. }
+    rewrite E. apply (sequence_map_some (fun x => Some (snd (conv x))) (fun x => snd (conv x))).
+    intros; reflexivity. }
   rewrite Hphs. simpl obind.
   assert (Hidl : map (fun i => match nth_error ids i with
                                | Some z => z
                                | None => zmax_list 0 ids + 1 + Z.of_nat (i - length ids)
                                end) (seq 0 (length L)) = ids).
-  { unfold ids. rewrite <- (map_length (fun x : nat * (Z * @phase T) => Z.of_nat (S (fst x))) L) at 2.
-    rewrite (seq_nth_map (fun o => match o with Some z => z | None => _ end)). apply map_id. }
+  { replace (length L) with (length ids) by (unfold ids; apply map_length).
+    apply (nth_default_seq ids (fun i => zmax_list 0 ids + 1 + Z.of_nat (i - length ids))). }
   (* the None branch above mentions i; redo with an explicit function *)
   f_equal. f_equal.
   transitivity (combine ids (map (fun x => snd (conv x)) L)).
   - f_equal. exact Hidl.
-  - unfold ids. clear. induction L as [|x r IH]; simpl; [reflexivity|]. rewrite IH. reflexivity.
+  - unfold ids. clear. induction L as [|x r IH]; [reflexivity|]. cbn [map combine]. rewrite IH. reflexivity.
 Qed.
 
 End Header.
